@@ -59,8 +59,9 @@ inductive Prog where
   /-- raise (or re-raise) an exception -/
   | raise (e : Exc)
   | query (q : Query) (k : UAns → Prog)
-  /-- write the file this `build_file` body was called for -/
-  | write (bytes : String) (k : Prog)
+  /-- write the file this `build_file` body was called for; `mtime`: the function stamps this
+      modification time on it (`os.utime`), otherwise the clock's -/
+  | write (bytes : String) (mtime : Option Nat) (k : Prog)
   | buildFile (path : Path) (cmp : Cmp) (fname : String) (args kwargs : Json)
       (body : Prog) (k : CallRes → Prog)
   | subbuild (fname : String) (args kwargs : Json) (body : Prog) (k : CallRes → Prog)
